@@ -336,7 +336,11 @@ func (t *StreamUnderlay) onOpenSessionResponse(seg *segment) error {
 	sessionID := seg.metadata.(*sessionStruct).sessionID
 	session, found := t.sessionMap.Load(sessionID)
 	if !found {
-		return fmt.Errorf("session ID %d is not found", sessionID)
+		// The session was closed and removed before its response arrived.
+		// This is not an error of the underlay: the other sessions that share
+		// the connection must not be closed because of it.
+		log.Debugf("%v received open session response, but session ID %d is not found", t, sessionID)
+		return nil
 	}
 	if !t.deliverSegmentToSession(session.(*Session), seg) && log.IsLevelEnabled(log.TraceLevel) {
 		log.Tracef("%v ignored openSessionResponse segment for closed session %d", t, sessionID)
